@@ -7,7 +7,7 @@
     them from the working tree: [gen_jp_years_sorted] (the per-asset loop handles the years in ascending
     order) and [gen_jp_prev_existing_year] (the opening balance names the sheet of the year handled
     just before).  On a tree without the repair of finding F5 both are [false], Proofs/JpProofs.v
-    (code_years_sorted / code_prev_existing) no longer compiles and neither does this file; the
+    (code_years_sorted / code_prev_existing; likewise code_intra_yen_guard for finding F14) no longer compiles and neither does this file; the
     [C20_refuted_*] witnesses (Proofs/JpRefuted.v, independent of the flags) say what fails then.
 
     Reading guide: rows and columns count from 0 in [cell_at]; spreadsheet references count rows
@@ -23,58 +23,66 @@ Open Scope Z_scope.
 (** the report = the yearly summary sheets followed by one calculation sheet per emission (asset-year), for the
     transactions visible in the date window; -f together with -t is refused (finding F7, property C16) *)
 Theorem C20_report_shape : forall lang i r,
-  jp_report lang gen_jp_years_sorted gen_jp_prev_existing_year i = Ok r ->
+  jp_report lang gen_jp_intra_yen_guard_on_crypto gen_jp_years_sorted gen_jp_prev_existing_year i = Ok r ->
   exists l, computed_all i (rp_assets i) = Ok l /\ map fst l = rp_assets i /\
     (rp_from i = MIN_DAY \/ rp_to i = MAX_DAY) /\
-    let ems := flat_map (fun ac => asset_emissions lang (rp_exchanges i) gen_jp_years_sorted gen_jp_prev_existing_year
+    let ems := flat_map (fun ac => asset_emissions lang gen_jp_intra_yen_guard_on_crypto (rp_exchanges i) gen_jp_years_sorted gen_jp_prev_existing_year
                                                    (ra_name (fst ac)) (chain_of (snd ac))) l in
-    r = summary_sheets lang (rp_exchanges i) ems ++ map (asset_sheet lang (rp_exchanges i)) ems.
-Proof. exact (fun lang => jp_report_shape lang gen_jp_years_sorted gen_jp_prev_existing_year). Qed.
+    r = summary_sheets lang gen_jp_intra_yen_guard_on_crypto (rp_exchanges i) ems
+        ++ map (asset_sheet lang gen_jp_intra_yen_guard_on_crypto (rp_exchanges i)) ems.
+Proof. exact (fun lang => jp_report_shape lang gen_jp_intra_yen_guard_on_crypto gen_jp_years_sorted gen_jp_prev_existing_year). Qed.
+
+(** ... and the generator produces it for every input the engine accepts, whatever the amounts (in particular for a transfer
+    whose lost amount is worth less than 5e-14 yen: no cell is ever handed None), unless both -f and -t are given *)
+Theorem C20_report_produced : forall lang i l,
+  computed_all i (rp_assets i) = Ok l -> (rp_from i = MIN_DAY \/ rp_to i = MAX_DAY) ->
+  exists r, jp_report lang gen_jp_intra_yen_guard_on_crypto gen_jp_years_sorted gen_jp_prev_existing_year i = Ok r.
+Proof. exact (fun lang => jp_report_total lang gen_jp_years_sorted gen_jp_prev_existing_year). Qed.
 
 (** one sheet per calendar year (of the transaction's own local timestamp) in which the asset has a visible
     transaction -- purchases, disposals or transfers, with or without fee --, in ascending year order *)
-Theorem C20_one_sheet_per_asset_year : forall lang exs asset txs,
-  let ems := asset_emissions lang exs gen_jp_years_sorted gen_jp_prev_existing_year asset txs in
+Theorem C20_one_sheet_per_asset_year : forall lang yg exs asset txs,
+  let ems := asset_emissions lang yg exs gen_jp_years_sorted gen_jp_prev_existing_year asset txs in
   StronglySorted Z.lt (map em_year ems) /\
   (forall y, In y (map em_year ems) <-> exists t, In t txs /\ local_year (t_ts t) = y) /\
-  (forall e, In e ems -> sw_name (asset_sheet lang exs e) = tax_sheet_name lang asset (em_year e)).
+  (forall e, In e ems -> sw_name (asset_sheet lang yg exs e) = tax_sheet_name lang asset (em_year e)).
 Proof.
-  intros lang exs asset txs. split; [apply AE_years_sorted|]. split; [apply AE_year_iff|].
-  intros e He. destruct (AE_in lang exs asset txs e He) as [Ha _]. cbn. rewrite Ha. reflexivity.
+  intros lang yg exs asset txs. split; [apply AE_years_sorted|]. split; [apply AE_year_iff|].
+  intros e He. destruct (AE_in lang yg exs asset txs e He) as [Ha _]. cbn. rewrite Ha. reflexivity.
 Qed.
 
 (** the names "<asset>_<year>" of all calculation sheets of a report are pairwise distinct *)
-Theorem C20_sheet_names_distinct : forall lang exs (l : list (rasset * computed)),
+Theorem C20_sheet_names_distinct : forall lang yg exs (l : list (rasset * computed)),
   NoDup (map (fun ac => ra_name (fst ac)) l) ->
   (forall ac t, In ac l -> In t (chain_of (snd ac)) -> 1 <= local_year (t_ts t) <= 9999) ->
-  NoDup (map (fun e => sw_name (asset_sheet lang exs e))
-             (all_emissions lang gen_jp_years_sorted gen_jp_prev_existing_year exs l)).
+  NoDup (map (fun e => sw_name (asset_sheet lang yg exs e))
+             (all_emissions lang yg gen_jp_years_sorted gen_jp_prev_existing_year exs l)).
 Proof. exact all_emissions_names_nodup. Qed.
 
 (** the sheet of (asset, y) lists exactly the transactions of year y that have a row (all acquisitions and
     disposals, and the transfers that lost something on the way), each once, in time order: the k-th of them
     fills row 21 + k, and what the sheet finally shows in that row is that transaction's cells *)
-Theorem C20_transactions_once : forall lang exs asset txs e,
-  In e (asset_emissions lang exs gen_jp_years_sorted gen_jp_prev_existing_year asset txs) ->
-  let kept := em_kept lang exs e in
-  Permutation kept (filter (fun t => (local_year (t_ts t) =? em_year e) && has_row lang exs t) txs) /\
+Theorem C20_transactions_once : forall lang yg exs asset txs e,
+  In e (asset_emissions lang yg exs gen_jp_years_sorted gen_jp_prev_existing_year asset txs) ->
+  let kept := em_kept lang yg exs e in
+  Permutation kept (filter (fun t => (local_year (t_ts t) =? em_year e) && has_row lang yg exs t) txs) /\
   StronglySorted (fun t1 t2 => t_us t1 <= t_us t2) kept /\
   (NoDup txs -> NoDup kept) /\
-  em_row_index lang exs e = gen_jp_first_row + Z.of_nat (length kept) /\
+  em_row_index lang yg exs e = gen_jp_first_row + Z.of_nat (length kept) /\
   forall k t, nth_error kept k = Some t ->
-    forall w, In w (row_cells (gen_jp_first_row + Z.of_nat k) (process lang exs t)) ->
-      cell_at (sw_writes (asset_sheet lang exs e)) (gen_jp_first_row + Z.of_nat k) (cw_col w) = cw_val w.
+    forall w, In w (row_cells (gen_jp_first_row + Z.of_nat k) (process lang yg exs t)) ->
+      cell_at (sw_writes (asset_sheet lang yg exs e)) (gen_jp_first_row + Z.of_nat k) (cw_col w) = cw_val w.
 Proof. exact AE_rows. Qed.
 
 (** which transactions have a row *)
-Theorem C20_which_rows : forall lang exs,
-  (forall a, has_row lang exs (TIn a) = true) /\ (forall a, has_row lang exs (TOut a) = true) /\
-  (forall a, has_row lang exs (TIntra a) = dgtb (of_grid (x_crypto_sent a - x_crypto_received a)) dzero).
+Theorem C20_which_rows : forall lang yg exs,
+  (forall a, has_row lang yg exs (TIn a) = true) /\ (forall a, has_row lang yg exs (TOut a) = true) /\
+  (forall a, has_row lang yg exs (TIntra a) = dgtb (of_grid (x_crypto_sent a - x_crypto_received a)) dzero).
 Proof. intros. split; [|split]; intros; [apply has_row_in|apply has_row_out|apply has_row_intra]. Qed.
 
 (** what a row shows: month, day, exchange, type, purchased amount / yen, sold amount / yen, fee (columns A..I) *)
-Theorem C20_row_of_acquisition : forall lang exs row a,
-  row_cells row (process lang exs (TIn a)) =
+Theorem C20_row_of_acquisition : forall lang yg exs row a,
+  row_cells row (process lang yg exs (TIn a)) =
   let yen := dmul (of_grid (i_crypto_in a)) (of_grid (i_spot a)) in
   [cw row 0 (PInt (month_of (i_ts a))); cw row 1 (PInt (dom_of (i_ts a))); cw row 2 (PStr (exch_name exs (i_exch a)));
    cw row 3 (PStr (type_text (i_type a))); cw row 4 (PNum (of_grid (i_crypto_in a))); cw row 5 (PNum yen)]
@@ -82,8 +90,8 @@ Theorem C20_row_of_acquisition : forall lang exs row a,
   ++ [cw row 8 (PNum (fee_in_yen (i_crypto_fee a) (i_spot a) (i_fiat_fee a)))].
 Proof. exact row_cells_in. Qed.
 
-Theorem C20_row_of_disposal : forall lang exs row a,
-  row_cells row (process lang exs (TOut a)) =
+Theorem C20_row_of_disposal : forall lang yg exs row a,
+  row_cells row (process lang yg exs (TOut a)) =
   let yen := dmul (of_grid (o_crypto_out_no_fee a)) (of_grid (o_spot a)) in
   [cw row 0 (PInt (month_of (o_ts a))); cw row 1 (PInt (dom_of (o_ts a))); cw row 2 (PStr (exch_name exs (o_exch a)));
    cw row 3 (PStr (type_text (o_type a))); cw row 6 (PNum (of_grid (o_crypto_out_with_fee a)));
@@ -91,65 +99,65 @@ Theorem C20_row_of_disposal : forall lang exs row a,
    cw row 8 (PNum (fee_in_yen (o_crypto_fee a) (o_spot a) (o_fiat_fee a)))].
 Proof. exact row_cells_out. Qed.
 
-Theorem C20_row_of_transfer_fee : forall lang exs row a, has_row lang exs (TIntra a) = true ->
-  row_cells row (process lang exs (TIntra a)) =
+Theorem C20_row_of_transfer_fee : forall lang exs row a,
+  has_row lang gen_jp_intra_yen_guard_on_crypto exs (TIntra a) = true ->
+  row_cells row (process lang gen_jp_intra_yen_guard_on_crypto exs (TIntra a)) =
   let fee := of_grid (x_crypto_sent a - x_crypto_received a) in
   let yen := dmul fee (of_grid (x_spot a)) in
   [cw row 0 (PInt (month_of (x_ts a))); cw row 1 (PInt (dom_of (x_ts a))); cw row 2 (PStr (gen_jp_transfer lang));
-   cw row 3 (PStr (type_text FEE)); cw row 6 (PNum fee); cw row 7 (if dgtb yen dzero then PNum yen else PEmpty);
-   cw row 8 (PNum dzero)].
-Proof. exact row_cells_intra. Qed.
+   cw row 3 (PStr (type_text FEE)); cw row 6 (PNum fee); cw row 7 (PNum yen); cw row 8 (PNum dzero)].
+Proof. exact row_cells_intra_code. Qed.
 
 (** no write and no inserted row lies outside a sheet *)
-Theorem C20_sheets_within_capacity : forall lang exs ems s, In s (report_of lang exs ems) -> sheet_ok s = true.
+Theorem C20_sheets_within_capacity : forall lang yg exs ems s, In s (report_of lang yg exs ems) -> sheet_ok s = true.
 Proof. exact report_sheets_ok. Qed.
 
 (** one summary sheet per year in which some asset has a sheet *)
-Theorem C20_one_summary_per_year : forall lang exs ems,
-  let years := map fst (ss_sheets (summary_state lang exs ems)) in
-  summary_sheets lang exs ems =
+Theorem C20_one_summary_per_year : forall lang yg exs ems,
+  let years := map fst (ss_sheets (summary_state lang yg exs ems)) in
+  summary_sheets lang yg exs ems =
     map (fun yo => sheet_of (summary_sheet_name lang (fst yo)) gen_jp_tmpl_summary_rows gen_jp_tmpl_summary_cols (snd yo))
-        (ss_sheets (summary_state lang exs ems)) /\
+        (ss_sheets (summary_state lang yg exs ems)) /\
   NoDup years /\ (forall y, In y years <-> In y (map em_year ems)).
-Proof. intros lang exs ems. split; [reflexivity|]. apply summary_years. Qed.
+Proof. intros lang yg exs ems. split; [reflexivity|]. apply summary_years. Qed.
 
 (** the summary of year y has one line per asset-year sheet of that year, in generation (= asset) order from row 7;
     its four references (average unit price, end balance amount / yen, net income) name that asset-year's own
     sheet and point at cells that sheet fills with its result formulas *)
-Theorem C20_summary_line : forall lang exs ems y j e,
+Theorem C20_summary_line : forall lang yg exs ems y j e,
   nth_error (filter (fun e => em_year e =? y) ems) j = Some e ->
-  exists s, In s (summary_sheets lang exs ems) /\ sw_name s = summary_sheet_name lang y /\
+  exists s, In s (summary_sheets lang yg exs ems) /\ sw_name s = summary_sheet_name lang y /\
     let row := gen_jp_summary_start + Z.of_nat j in
     let nm := tax_sheet_name lang (em_asset e) (em_year e) in
-    let r := em_row_index lang exs e in
-    em_year e = y /\ sw_name (asset_sheet lang exs e) = nm /\
+    let r := em_row_index lang yg exs e in
+    em_year e = y /\ sw_name (asset_sheet lang yg exs e) = nm /\
     cell_at (sw_writes s) row 0 = PStr (em_asset e) /\
     cell_at (sw_writes s) row 3 = sheet_ref nm 71 (r + 9 + 1) /\
     cell_at (sw_writes s) row 4 = sheet_ref nm 73 (r + 8 + 1) /\
     cell_at (sw_writes s) row 5 = sheet_ref nm 73 (r + 9 + 1) /\
     cell_at (sw_writes s) row 6 = sheet_ref nm 73 (r + 17 + 1) /\
     (forall dr col, In (dr, col) [(9, 6); (8, 8); (9, 8); (17, 8)] ->
-       exists f, cell_at (sw_writes (asset_sheet lang exs e)) (r + dr) col = PFormula f).
+       exists f, cell_at (sw_writes (asset_sheet lang yg exs e)) (r + dr) col = PFormula f).
 Proof. exact summary_line. Qed.
 
 (** the opening-balance cells (column E, rows r + 8 / r + 9) of the sheet of (asset, y): literal 0 when the asset has
     no sheet for an earlier year; otherwise references to the closing-balance cells (column I, rows r' + 8 / r' + 9) of
     the sheet of the greatest earlier year y' of the same asset that has a sheet -- whether or not y' = y - 1 *)
-Theorem C20_opening_balance_chain : forall lang exs asset txs e,
-  let ems := asset_emissions lang exs gen_jp_years_sorted gen_jp_prev_existing_year asset txs in
+Theorem C20_opening_balance_chain : forall lang yg exs asset txs e,
+  let ems := asset_emissions lang yg exs gen_jp_years_sorted gen_jp_prev_existing_year asset txs in
   In e ems ->
-  let s := asset_sheet lang exs e in
-  let r := em_row_index lang exs e in
+  let s := asset_sheet lang yg exs e in
+  let r := em_row_index lang yg exs e in
   ((forall e', In e' ems -> em_year e <= em_year e') ->
      cell_at (sw_writes s) (r + 8) 4 = PInt 0 /\ cell_at (sw_writes s) (r + 9) 4 = PInt 0) /\
   (forall e', In e' ems -> em_year e' < em_year e ->
      (forall e'', In e'' ems -> em_year e'' < em_year e -> em_year e'' <= em_year e') ->
-     let r' := em_row_index lang exs e' in
+     let r' := em_row_index lang yg exs e' in
      cell_at (sw_writes s) (r + 8) 4 = sheet_ref (tax_sheet_name lang asset (em_year e')) 73 (r' + 8 + 1) /\
      cell_at (sw_writes s) (r + 9) 4 = sheet_ref (tax_sheet_name lang asset (em_year e')) 73 (r' + 9 + 1) /\
-     sw_name (asset_sheet lang exs e') = tax_sheet_name lang asset (em_year e') /\
-     (exists f, cell_at (sw_writes (asset_sheet lang exs e')) (r' + 8) 8 = PFormula f) /\
-     (exists f, cell_at (sw_writes (asset_sheet lang exs e')) (r' + 9) 8 = PFormula f)).
+     sw_name (asset_sheet lang yg exs e') = tax_sheet_name lang asset (em_year e') /\
+     (exists f, cell_at (sw_writes (asset_sheet lang yg exs e')) (r' + 8) 8 = PFormula f) /\
+     (exists f, cell_at (sw_writes (asset_sheet lang yg exs e')) (r' + 9) 8 = PFormula f)).
 Proof. exact opening_balance_chain. Qed.
 
 (** the row arithmetic of the source fits the shipped templates (blank rows where rows are inserted, the template's own
@@ -168,35 +176,55 @@ Proof. exact (conj jp_asset_layout_fits_template (conj jp_summary_layout_fits_te
 
 (** ---- the code as it was (finding F5): first-seen year order and a reference hard-wired to year - 1 *)
 Theorem C20_refuted_unordered : exists i r,
-  jp_report 0 false false i = Ok r /\
+  jp_report 0 false false false i = Ok r /\
   map sw_name r = [summary_sheet_name 0 2019; summary_sheet_name 0 2021; summary_sheet_name 0 2020; nm 2019; nm 2021; nm 2020] /\
   cell r (nm 2021) 30 4 = sheet_ref (nm 2020) 73 32 /\ cell r (nm 2020) 30 8 = closing_formula 31 /\
   cell r (nm 2020) 30 4 = sheet_ref (nm 2019) 73 31 /\ cell r (nm 2019) 31 8 = closing_formula 32.
-Proof. exists unordered_input, (report_of_input false false unordered_input). exact refuted_unordered. Qed.
+Proof. exists unordered_input, (report_of_input false false false unordered_input). exact refuted_unordered. Qed.
 
 Theorem C20_refuted_gap : exists i r,
-  jp_report 0 false false i = Ok r /\
+  jp_report 0 false false false i = Ok r /\
   map sw_name r = [summary_sheet_name 0 2019; summary_sheet_name 0 2021; nm 2019; nm 2021] /\
   cell r (nm 2021) 30 4 = sheet_ref (nm 2020) 73 31 /\ has_sheet r (nm 2020) = false.
-Proof. exists gap_input, (report_of_input false false gap_input). exact refuted_gap. Qed.
+Proof. exists gap_input, (report_of_input false false false gap_input). exact refuted_gap. Qed.
+
+(** finding F14: the yen value of a transfer's lost amount guarded by its own 13-decimal comparison *)
+Theorem C20_refuted_dust_fee_crash : exists i,
+  jp_report 0 false true true i = Err EValue /\
+  exists r, jp_report 0 true true true i = Ok r /\
+    map sw_name r = [summary_sheet_name 0 2019; nm 2019] /\
+    cell r (nm 2019) 22 6 = PNum (of_grid 1) /\ cell r (nm 2019) 22 7 = PNum (dmul (of_grid 1) (of_grid 1000)).
+Proof.
+  exists dust_input. destruct refuted_dust_fee_crash as [H1 H2]. split; [exact H1|].
+  exists (report_of_input true true true dust_input). exact H2.
+Qed.
 
 (** ---- non-vacuity: on the same two inputs the report with the facts of the current source is produced, has three
     (two) asset-year emissions, and the chain reads 2019 <- 2020 <- 2021 (2019 <- 2021 over the gap) *)
 Example C20_example_unordered : exists r,
-  jp_report 0 gen_jp_years_sorted gen_jp_prev_existing_year unordered_input = Ok r /\
+  jp_report 0 gen_jp_intra_yen_guard_on_crypto gen_jp_years_sorted gen_jp_prev_existing_year unordered_input = Ok r /\
   map sw_name r = [summary_sheet_name 0 2019; summary_sheet_name 0 2020; summary_sheet_name 0 2021; nm 2019; nm 2020; nm 2021] /\
   cell r (nm 2019) 31 4 = PInt 0 /\
   cell r (nm 2020) 30 4 = sheet_ref (nm 2019) 73 32 /\ cell r (nm 2019) 31 8 = closing_formula 32 /\
   cell r (nm 2021) 30 4 = sheet_ref (nm 2020) 73 31 /\ cell r (nm 2020) 30 8 = closing_formula 31.
-Proof. rewrite code_years_sorted, code_prev_existing. exists (report_of_input true true unordered_input). exact repaired_unordered. Qed.
+Proof. rewrite code_years_sorted, code_prev_existing, code_intra_yen_guard. exists (report_of_input true true true unordered_input). exact repaired_unordered. Qed.
+
+Example C20_example_dust_fee : exists r,
+  jp_report 0 gen_jp_intra_yen_guard_on_crypto gen_jp_years_sorted gen_jp_prev_existing_year dust_input = Ok r /\
+  cell r (nm 2019) 22 7 = PNum (dmul (of_grid 1) (of_grid 1000)).
+Proof.
+  rewrite code_years_sorted, code_prev_existing, code_intra_yen_guard. exists (report_of_input true true true dust_input).
+  destruct refuted_dust_fee_crash as [_ [H1 [_ [_ H2]]]]. split; assumption.
+Qed.
 
 Example C20_example_gap : exists r,
-  jp_report 0 gen_jp_years_sorted gen_jp_prev_existing_year gap_input = Ok r /\
+  jp_report 0 gen_jp_intra_yen_guard_on_crypto gen_jp_years_sorted gen_jp_prev_existing_year gap_input = Ok r /\
   map sw_name r = [summary_sheet_name 0 2019; summary_sheet_name 0 2021; nm 2019; nm 2021] /\
   cell r (nm 2021) 30 4 = sheet_ref (nm 2019) 73 31 /\ cell r (nm 2019) 30 8 = closing_formula 31.
-Proof. rewrite code_years_sorted, code_prev_existing. exists (report_of_input true true gap_input). exact repaired_gap. Qed.
+Proof. rewrite code_years_sorted, code_prev_existing, code_intra_yen_guard. exists (report_of_input true true true gap_input). exact repaired_gap. Qed.
 
 Print Assumptions C20_report_shape.
+Print Assumptions C20_report_produced.
 Print Assumptions C20_one_sheet_per_asset_year.
 Print Assumptions C20_sheet_names_distinct.
 Print Assumptions C20_transactions_once.
@@ -211,3 +239,4 @@ Print Assumptions C20_opening_balance_chain.
 Print Assumptions C20_layout_fits_template.
 Print Assumptions C20_refuted_unordered.
 Print Assumptions C20_refuted_gap.
+Print Assumptions C20_refuted_dust_fee_crash.
